@@ -566,6 +566,54 @@ fn obs_import_node(node: &SyntaxNode, out: &mut Vec<Vec<String>>) {
     }
 }
 
+fn has_comment_deep(n: &SyntaxNode) -> bool {
+    is_comment(n.kind()) || n.children().any(has_comment_deep)
+}
+
+fn import_keep_node(node: &SyntaxNode, out: &mut Vec<bool>) {
+    if node.kind() == K::ModuleImport {
+        // must the items keep their order? (a comment in the item region, or a name bound twice)
+        let mut in_items = false;
+        let mut comment = false;
+        let mut names: Vec<String> = Vec::new();
+        let mut dup = false;
+        for c in node.children() {
+            if matches!(c.kind(), K::LeftParen | K::ImportItems) {
+                in_items = true;
+            }
+            if in_items && has_comment_deep(c) {
+                comment = true;
+            }
+            if c.kind() == K::ImportItems {
+                for it in c.children() {
+                    if matches!(it.kind(), K::ImportItemPath | K::RenamedImportItem) {
+                        let mut ls = Vec::new();
+                        leaves(it, &mut ls);
+                        if let Some(last) = ls.iter().rev().find(|l| l.kind() == K::Ident) {
+                            let n = last.text().to_string();
+                            if names.contains(&n) {
+                                dup = true;
+                            }
+                            names.push(n);
+                        }
+                    }
+                }
+            }
+        }
+        out.push(comment || dup);
+    }
+    for c in node.children() {
+        import_keep_node(c, out);
+    }
+}
+
+/// Per import statement: must its items keep their order even with reordering on?
+pub fn obs_import_keep(root: &SyntaxNode) -> Vec<bool> {
+    let mut v = Vec::new();
+    import_keep_node(root, &mut v);
+    v
+}
+
 pub fn obs_imports(root: &SyntaxNode) -> Vec<Vec<String>> {
     let mut v = Vec::new();
     obs_import_node(root, &mut v);
